@@ -55,6 +55,10 @@ CHECKS = {
  'C16': dict(sec='3/C16', tech='TLC enumeration of Parsers.tla (character-level CSV/TSV/VW render+parse machines, namespace maps) + every rendered line through the real generic_line_parser / parse_namespace; wrong-arity lines through the real streaming loop',
              text='Parsers.tla renders every row of a bounded space as CSV (RFC 4180), TAB-separated and VW lines and parses them back with a 4-state CSV reader, a split-on-TAB reader and the VW namespace grammar: RoundTripCSV, RoundTripTSV, ArityExact, VWFieldsInColumns; every rendered line is parsed by the real code under the matching data source with several character maps and must return exactly the cells; namespace maps over 7 line shapes; wrong-arity lines must be rejected as a whole by the real loop.',
              note='cells of length <= 2 over 4-5 characters, <= 3-6 cells; VW: <=3 namespaces, <=2 tokens; multi-token prefix removal accepted in both readings'),
+
+ 'C11': dict(sec='3/C11', tech='TLC enumeration of FeatureConstruction.tla (one action per constructor, flag subsets) + replay of every state through the real compute_batch_ranking with the constructed frame captured',
+             text='FeatureConstruction.tla applies Expand/Sub/Interact/Noise in pipeline order to every frame of a bounded space and model-checks Additive, OneValuePerRow, MultiValueRule, OneSidedRule, TwoSidedRule, TargetControlIsLabel; every (frame, flags) state is replayed through the real compute_batch_ranking and the constructed frame compared column by column with the specification.',
+             note='frames: label + multi-value column + two categorical columns, 3 rows; the order of appended columns is not constrained'),
 }
 
 checks = []
